@@ -73,6 +73,9 @@ pub trait Property: Sync {
     fn attempts(&self, _case: &Self::Case) -> u32 { 1 }
     /// structure-aware decoding of one fuzzer input into a case of this part's generator domain (parts without one: the input seeds the generator)
     fn decode(&self, _u: &mut arbitrary::Unstructured<'_>) -> Option<Self::Case> { None }
+    /// what `./check.sh replay` and the committed regression replays execute (parts whose executions are not reproducible from the case
+    /// re-execute the workload many times here; everybody else just runs the case)
+    fn replay(&self, case: &Self::Case) -> RunReport { self.run_guarded(case) }
     /// cases enumerated exhaustively before the random search (bounded-exhaustive parts)
     fn exhaustive(&self, _tier: Tier) -> Option<Box<dyn Iterator<Item = Self::Case> + '_>> { None }
 }
@@ -160,6 +163,14 @@ fn write_inflight<C: Serialize>(cfg: &Cfg, part: &str, worker: usize, case: &C) 
 fn clear_inflight(cfg: &Cfg, part: &str, worker: usize) {
     let _ = std::fs::remove_file(cfg.replays_out.join(format!("inflight-{}-{}-w{}.json", cfg.property, part, worker)));
 }
+thread_local! {
+    /// set by a part whose executions are not reproducible from the case (free-running threads) right before it reports a violation:
+    /// the case with the violating execution's recorded history inside; the driver reports / replays that one instead of re-executing
+    static FROZEN: std::cell::RefCell<Option<Value>> = const { std::cell::RefCell::new(None) };
+}
+pub fn freeze_case<C: Serialize>(case: &C) { FROZEN.with(|f| *f.borrow_mut() = serde_json::to_value(case).ok()); }
+fn take_frozen() -> Option<Value> { FROZEN.with(|f| f.borrow_mut().take()) }
+
 pub static SURVEY_DETAILS: Mutex<BTreeMap<String, String>> = Mutex::new(BTreeMap::new());
 
 fn mix(a: u64, b: u64) -> u64 {
@@ -202,6 +213,7 @@ pub fn run_part<P: Property>(prop: &P, cfg: &Cfg) -> PartResult {
     let survey = cfg.survey;
     let is_known = |sig: &str| survey || known.iter().any(|k| k.signature == sig);
     let failure: Mutex<Option<P::Case>> = Mutex::new(None);
+    let frozen_failure: Mutex<Option<Value>> = Mutex::new(None);
 
     let _ = std::fs::create_dir_all(&cfg.replays_out);
     // --- bounded-exhaustive phase (the enumeration is split over the workers: worker w takes the cases w, w+W, w+2W, ...)
@@ -251,6 +263,7 @@ pub fn run_part<P: Property>(prop: &P, cfg: &Cfg) -> PartResult {
             for w in 0..workers {
                 let shared = &shared;
                 let failure = &failure;
+                let frozen_failure = &frozen_failure;
                 let is_known = &is_known;
                 let per = total / workers as u32 + if (w as u32) < total % workers as u32 { 1 } else { 0 };
                 let seed = mix(mix(cfg.seed, w as u64 + 1), fxhash(prop.part()));
@@ -278,7 +291,9 @@ pub fn run_part<P: Property>(prop: &P, cfg: &Cfg) -> PartResult {
                         if blocked_runs >= 48 { return Ok(()); }                              // the search itself is drowning in blocked runs: conclude (inconclusive)
                         PROGRESS.fetch_add(1, Ordering::Relaxed);
                         write_inflight(cfg, prop.part(), w, &case);
+                        let _ = take_frozen();
                         let rep = prop.run_guarded(&case);
+                        let frozen = take_frozen();
                         if !failed_here.get() {
                             account(shared, &rep, || serde_json::to_value(&case).unwrap_or(Value::Null));
                         }
@@ -293,6 +308,7 @@ pub fn run_part<P: Property>(prop: &P, cfg: &Cfg) -> PartResult {
                                 } else {
                                     if !failed_here.get() { note_first_violation(cfg, prop.part(), &case, signature, detail); }
                                     if signature.contains("blocked-instead-of-returning") { no_shrink.set(true); }
+                                    if let Some(fz) = frozen { let mut g = frozen_failure.lock().unwrap(); if g.is_none() { *g = Some(fz); } no_shrink.set(true); }
                                     failed_here.set(true);
                                     shared.stop.store(true, Ordering::Relaxed);
                                     Err(TestCaseError::fail(signature.clone()))
@@ -318,7 +334,12 @@ pub fn run_part<P: Property>(prop: &P, cfg: &Cfg) -> PartResult {
     }
 
     let mut result = shared.res.into_inner().unwrap();
-    if let Some(case) = failure.into_inner().unwrap() {
+    let mut failing = failure.into_inner().unwrap();
+    if let Some(fz) = frozen_failure.into_inner().unwrap() {
+        // a frozen execution (recorded history inside the case) takes precedence over the case that produced it
+        if let Ok(c) = serde_json::from_value::<P::Case>(fz) { failing = Some(c); }
+    }
+    if let Some(case) = failing {
         match confirm_and_minimise(prop, cfg, case, &is_known) {
             Ok((sig, detail, path)) => result.violation = Some((sig, detail, path)),
             Err(why) => result.harness_error = Some(why),
@@ -408,7 +429,7 @@ fn confirm_and_minimise<P: Property>(prop: &P, cfg: &Cfg, mut case: P::Case, is_
 /// Re-runs one replay file against `prop` (strict: known findings are reported as violations too)
 pub fn replay_part<P: Property>(prop: &P, file: &ReplayFile) -> Result<RunReport, String> {
     let case: P::Case = serde_json::from_value(file.case.clone()).map_err(|e| format!("cannot decode case: {e}"))?;
-    let mut rep = prop.run_guarded(&case);
+    let mut rep = prop.replay(&case);
     for _ in 1..prop.attempts(&case).max(1) {
         if matches!(rep.verdict, Verdict::Violation { .. }) { break; }
         rep = prop.run_guarded(&case);
